@@ -58,6 +58,19 @@ CHECKS = {
     'C16': ('renderer-as-specification round-trip monitor for csv / tab-separated / VW lines and namespace maps; admitted rows of the streaming loop compared with the well-formed rows',
             'Every generated table row is rendered and must be parsed back cell for cell (CSV with both quoting styles and with the delimiter arguments real callers pass; tab-separated rows with empty edge cells and exotic whitespace; VW lines with shuffled/omitted/unknown namespaces, many lines per header in one process); rows with a wrong field count must be rejected whole.',
             'Cells without line breaks; VW prefix = first two characters of the joined token string.', '3/C16'),
+
+    'C17': ('post-condition monitor in exact rational arithmetic on rank_features_3MR (direct calls and installed on task_ranking during real 3MR task runs)',
+            'Every returned ranking must be a permutation with ranks 1..n whose first element has maximal relevance and whose every later element maximises relevance - alpha*agg(redundancy) + beta*agg(relation) over the remaining features (missing pairs = 0), recomputed with Fractions; dense/sparse symmetric dictionaries, ties, negatives, all strategies.',
+            'Symmetric dictionaries; 1e-12*scale slack for the float arithmetic of the implementation.', '3/C17'),
+    'C18': ('pure recomputation oracle over the files written by outrank_task_result_summary on generated triplet tables and on real task outputs',
+            'feature_singles.tsv must list exactly the features paired with the label, once each, with the median of their label scores (min-max normalised for MI-type heuristics: best 1, worst 0), in descending order; the aggregated table must hold per-constituent medians of the written interaction scores.',
+            'Base names avoid "-", "AND", numerals, NA tokens.', '3/C18'),
+    'C19': ('domain-model monitor on generate_data / naive generator / generator task; bit-exact repetition (same object, new object, after unrelated RNG use, fresh processes)',
+            'Shape and dtype, per-column domain membership (default range, value list, value/frequency pair, random draw within bounds), declared positions of structured features, representation when n >= |domain|, and seed reproducibility are checked on every generated data set; the naive label must be a binary function of the needle; data.csv must equal the arrays.',
+            'Ascending in-range structure indices.', '3/C19'),
+    'C20': ('direct recomputation oracles on every generator method and its dataset_info record; harness-supplied tie-free decision functions',
+            'Pearson(source, correlated) = r within 1e-6; duplicates/combinations equal their sources/functions and are recorded at their positions (also when chained); labels are a monotone step function with the requested cumulative proportions (+-1); categorical noise stays within floor(p*n) cells and the feature\'s own domain; missing noise places exactly floor(p*n) markers; inputs are never mutated; down-sampling returns exactly n rows per class drawn from that class.',
+            'n <= 600/2000 for the n x n projector; markers representable in the dtype; dyadic class distributions.', '3/C20'),
 }
 
 PENDING_REASON = 'check not built yet in this revision (planned: runtime monitor per DESIGN.md section 3)'
